@@ -193,7 +193,8 @@ def run(ctx, rep):
            "both branches feed __mro__ sequences into the merge loop" if okm else "method discovery no longer covers both MROs",
            fgm.loc, kind="site")
     flt = [n for n in A.walk(fgm.node) if isinstance(n, ast.If) and "not in %s" % gp[0] in A.src(n.test)]
-    okf = bool(flt) and "hasattr(attr, '__call__')" in A.src(flt[0].test)
+    okf = bool(flt) and any(A.call_name(c) in ("hasattr", "callable") and (
+        len(c.args) == 1 or ctx.try_fold(c.args[1]) == "__call__") for c in A.calls(flt[0].test))
     rep.ob("R02.4", "get_methods reports every callable attribute that is not a local name", okf,
            "`%s`" % A.src(flt[0].test) if okf else "the callable/local-name filter changed", fgm.loc, kind="site")
     hi = ctx.func(K.CONN + "._handle_inspect")
@@ -231,8 +232,12 @@ def run(ctx, rep):
     rep.ob("R02.6", "buffiter: every element of the fetched chunk is yielded, in order", oky,
            "for elem in %s: yield elem" % chunk if oky else "the chunk is not yielded element by element in order",
            ctx.loc(fors[0]) if fors else ctx.loc(w))
+    cvar = None
+    for c in A.calls(fetch[0].value):
+        if (A.call_name(c) or "").endswith("syncreq") and len(c.args) >= 3 and isinstance(c.args[2], ast.Name):
+            cvar = c.args[2].id
     cnt_updates = [n for n in A.walk(w) if isinstance(n, ast.Assign) and isinstance(n.targets[0], ast.Name)
-                   and n.targets[0].id == "count"]
+                   and n.targets[0].id == cvar]
     okc = len(cnt_updates) == 1 and isinstance(cnt_updates[0].value, ast.Call) and A.call_name(cnt_updates[0].value) == "min" \
         and bp[2] in A.names_loaded(cnt_updates[0].value)
     rep.ob("R02.6", "buffiter: the chunk size is clamped by max_chunk", okc, "`%s`" % A.norm(cnt_updates[0]) if okc else
